@@ -191,10 +191,40 @@ func (fv *FV) heapLoadPath(st *State, ref Term, root types.Type, path []int) Ter
 	for _, idx := range path[1:] {
 		cur = fv.structGet(cur, cur.T, idx)
 	}
+	if owners := st.mentions(ref.S); len(owners) > 0 {
+		// a value loaded from a not-yet-escaped object: it may denote the objects stored into
+		// that object, never the object itself (the select index is not a value position)
+		n := fv.fresh("ldl")
+		st.emit(fmt.Sprintf("(define-fun %s () %s %s)", n, cur.Sort, cur.S))
+		var kids []string
+		seen := map[string]bool{}
+		var walk func(o string)
+		walk = func(o string) {
+			for _, c := range st.owned[o] {
+				if !seen[c] {
+					seen[c] = true
+					kids = append(kids, c)
+					walk(c)
+				}
+			}
+		}
+		for _, o := range owners {
+			walk(o)
+		}
+		if st.aliases == nil {
+			st.aliases = map[string][]string{}
+		}
+		st.aliases[n] = kids
+		cur = Term{S: n, Sort: cur.Sort, T: cur.T}
+	}
 	if _, isSl := cur.T.Underlying().(*types.Slice); isSl {
 		st.assume(Term{S: fmt.Sprintf("(>= (%s_len %s) 0)", cur.Sort, cur.S), Sort: SBool})
 	}
 	if _, isB := cur.T.Underlying().(*types.Basic); isB && cur.Sort == SInt {
+		fv.typeAssume(st, cur, cur.T)
+	}
+	if _, isI := cur.T.Underlying().(*types.Interface); isI && cur.Sort == SVal {
+		cur = fv.def(st, "ldv", cur)
 		fv.typeAssume(st, cur, cur.T)
 	}
 	if _, isP := cur.T.Underlying().(*types.Pointer); isP {
@@ -216,6 +246,20 @@ func (fv *FV) heapStorePath(st *State, ref Term, root types.Type, path []int, v 
 		old := tSelect(h, ref, fv.sortOf(ft))
 		old.T = ft
 		nv = fv.nestedSet(old, path[1:], v)
+	}
+	// escape tracking: what is stored into a visible object becomes visible
+	for _, r := range st.mentions(nv.S) {
+		owners := st.mentions(ref.S)
+		if len(owners) > 0 {
+			if st.owned == nil {
+				st.owned = map[string][]string{}
+			}
+			for _, o := range owners {
+				st.owned[o] = append(append([]string(nil), st.owned[o]...), r)
+			}
+		} else {
+			st.escape(r)
+		}
 	}
 	nh := fv.def(st, name, tStore(h, ref, nv))
 	st.heap[name] = nh
@@ -467,6 +511,10 @@ func (fv *FV) step(st *State) (*State, []*State) {
 
 func (fv *FV) newRef(st *State, prefix string) Term {
 	ref := fv.freshConst(st, prefix, SInt, nil)
+	if st.local == nil {
+		st.local = map[string]bool{}
+	}
+	st.local[ref.S] = true
 	nx := fv.nextOf(st.heap, st.epoch)
 	st.assume(tEq(ref, nx))
 	st.heap["pv_next"] = Term{S: "(+ " + ref.S + " 1)", Sort: SInt}
@@ -804,6 +852,8 @@ func (fv *FV) mapUpdate(st *State, x *ssa.MapUpdate) {
 	ks, vs, _ := fv.mapSorts(x.Map.Type())
 	k, v := fv.vterm(st, x.Key), fv.vterm(st, x.Value)
 	fv.oblige(st, "mapnil", "update", x.Pos(), tNot(tEq(m, mkInt(0))), "")
+	st.escapeTerm(k)
+	st.escapeTerm(v)
 	fv.mapFrameCheck(st, m, x.Pos())
 	fv.guardCheck(st, x.Map, x.Pos())
 	dn, vn := mapDomHeap(ks, vs), mapValHeap(ks, vs)
